@@ -101,7 +101,9 @@ pub async fn wait_for_jobs_with_progress(
     for job in jobs {
         n_tasks += job.n_tasks;
         counters = counters + job.counters;
-        if is_terminated(job) {
+        // An open job is completed only after it is closed, the server then announces it
+        // by `JobCompleted` (counting it here as well would count the job twice).
+        if is_terminated(job) && !job.is_open() {
             completed_jobs += 1;
         }
         for job_task_id in &job.running_tasks {
